@@ -10,6 +10,7 @@ image.  That the constructor rebuild does not change values is C05.
 -/
 import UflVerif.Model.Replace
 import UflVerif.Sem.Congr
+import UflVerif.Sem.FI
 
 namespace UflVerif.C21
 open UflVerif Expr
